@@ -5,7 +5,7 @@
     and the check searches for a concrete failing input. *)
 From Coq Require Import List NArith Bool String.
 From Verif Require Import Lib.Bytes Sni.Wire Sni.WireGen Sni.SchedSkel Sni.Rpc Gen.WireSchema Gen.TransportSkel.
-From Verif Require Import Sni.RpcProofs Sni.RpcCtx Sni.RpcCtxProofs.
+From Verif Require Import Sni.RpcProofs Sni.RpcCtx Sni.RpcCtxProofs Sni.RpcShut.
 Import ListNotations.
 Local Open Scope string_scope.
 
@@ -234,4 +234,58 @@ Proof.
   repeat split.
   - intros i c Hin. vm_compute in Hin. destruct Hin as [[= <- <-]|[]]. vm_compute. discriminate.
   - intros vs' Hin. vm_compute in Hin. exact Hin.
+Qed.
+
+(** ** A call rejected by serve is not sent and not recorded (Sni/RpcShut.v)
+
+    The statements serve executes for a call it takes off the queue once
+    [shutdownCalled] is set, following Go's control flow (the translator
+    resolves which construct an unlabelled [break] leaves): the call is
+    completed once, and neither [tr.send] nor the [pending] table occurs on
+    that path.  This is a statement about control flow, not about text. *)
+Local Open Scope string_scope.
+
+Definition mentions (what line : string) : bool :=
+  match String.index 0 what line with Some _ => true | None => false end.
+
+Definition rejected_path_ok (l : list string) : bool :=
+  forallb (fun x => negb (mentions "tr.send(" x) && negb (mentions "pending[" x)
+                    && negb (String.prefix "unknown" x) && negb (String.prefix "if?" x)
+                    && negb (String.prefix "case?" x)) l
+  && Nat.eqb (List.length (filter (String.eqb "call c.done()") l)) 1
+  && existsb (mentions "errAlreadyShutdown") l.
+
+Lemma gen_rejected_call_not_sent : rejected_path_ok gen_rejected_call_path = true.
+Proof. vm_compute. reflexivity. Qed.
+
+(** The path of the seeded change C03-g, as the translator reads it: the
+    break leaves only the switch. *)
+Definition seeded_rejected_path : list string :=
+  [ "do c.id = id"; "do id++"; "do c.err = errAlreadyShutdown"; "call c.done()";
+    "do err := tr.send(c)"; "if? err != nil"; "do c.err = err"; "call c.done()"; "return err";
+    "do old, found := pending[c.id]"; "if? found"; "do old.err = errTooLong"; "call old.done()";
+    "call delete(pending, c.id)"; "do pending[c.id] = c" ].
+
+(** With that path a call that passed the shutdown check in time and reached
+    the queue behind the shutdown request is completed twice -- a second
+    close of its done channel, a run-time panic -- when the transport winds
+    down; in the model of the source as it is, the same history completes
+    every call once. *)
+Local Open Scope N_scope.
+
+Definition shutdown_call (k : N) : pcall := mkCall k 0 None 0.
+
+Definition behind_history : list event :=
+  [ ECall (ctx_hello 10) true; ESignal; ECall (shutdown_call 20) true; ECall (ctx_hello 11) true; EReadErr ].
+
+Theorem fallthrough_refuted :
+  rejected_path_ok seeded_rejected_path = false /\
+  wf_trace behind_history /\
+  panicked (run_ft gen_alloc_max two64 behind_history) = true /\
+  panicked (Rpc.run gen_alloc_max two64 behind_history) = false /\
+  log (Rpc.run gen_alloc_max two64 behind_history) =
+    [(11, RErr CShutdown); (20, RErr CExit); (10, RErr CExit)].
+Proof.
+  split; [vm_compute; reflexivity|]. split; [apply wf_traceb_spec; vm_compute; reflexivity|].
+  split; [vm_compute; reflexivity|]. split; vm_compute; reflexivity.
 Qed.
